@@ -6,7 +6,7 @@ package main
 // the view of the parsed certificate (every field any translated rule reads, dumped by reflection, plus
 // ExtensionsMap). The Lean driver evaluates the regenerated terms on the same view.
 //
-//   bodies <bools> <ints> <strs> <lists> <exts> <times>   →   one token per translated rule, in table order:
+//   bodies <bools> <ints> <strs> <lists> <exts> <times> <env>   →   one token per translated rule, in table order:
 //                                                      P (panic) | N (CheckApplies = false) | <status>
 
 import (
@@ -15,6 +15,8 @@ import (
 	"encoding/asn1"
 	"encoding/json"
 	"fmt"
+	"net/mail"
+	"net/url"
 	"os"
 	"path/filepath"
 	"reflect"
@@ -27,10 +29,148 @@ import (
 
 	"github.com/zmap/zcrypto/x509"
 	"github.com/zmap/zlint/v3/lint"
+	"github.com/zmap/zlint/v3/util"
 )
 
 func init() {
 	subs["bodies"] = subBodies
+}
+
+// the external functions the model takes as parameters, implemented with the real libraries; names as in
+// extract/bodies.go (facts.json: tables.body_extern_fns / body_extern_preds give the ids)
+var externFnImpl = map[string]func(string) (string, bool){
+	"url.Parse.Scheme": func(s string) (string, bool) {
+		u, err := url.Parse(s)
+		if err != nil {
+			return "", false
+		}
+		return u.Scheme, true
+	},
+	"url.Parse.Host": func(s string) (string, bool) {
+		u, err := url.Parse(s)
+		if err != nil {
+			return "", false
+		}
+		return u.Host, true
+	},
+	"url.Parse.Opaque": func(s string) (string, bool) {
+		u, err := url.Parse(s)
+		if err != nil {
+			return "", false
+		}
+		return u.Opaque, true
+	},
+	"url.Parse.Path": func(s string) (string, bool) {
+		u, err := url.Parse(s)
+		if err != nil {
+			return "", false
+		}
+		return u.Path, true
+	},
+	"url.Parse.Hostname": func(s string) (string, bool) {
+		u, err := url.Parse(s)
+		if err != nil {
+			return "", false
+		}
+		return u.Hostname(), true
+	},
+	"strings.ToLower": func(s string) (string, bool) { return strings.ToLower(s), true },
+	"strings.ToUpper": func(s string) (string, bool) { return strings.ToUpper(s), true },
+}
+var externPredImpl = map[string]func(string) bool{
+	"url.Parse.err":               func(s string) bool { _, err := url.Parse(s); return err != nil },
+	"url.Parse.IsAbs":             func(s string) bool { u, err := url.Parse(s); return err == nil && u.IsAbs() },
+	"url.Parse.User.nil":          func(s string) bool { u, err := url.Parse(s); return err == nil && u.User == nil },
+	"mail.ParseAddress.err":       func(s string) bool { _, err := mail.ParseAddress(s); return err != nil },
+	"util.IsFQDNOrIP":             util.IsFQDNOrIP,
+	"util.IsISOCountryCode":       util.IsISOCountryCode,
+	"util.IsLDHLabel":             util.IsLDHLabel,
+	"util.IsInTLDMap":             util.IsInTLDMap,
+	"util.HasReservedLabelPrefix": util.HasReservedLabelPrefix,
+	"util.HasXNLabelPrefix":       util.HasXNLabelPrefix,
+}
+
+var bodyExternFns, bodyExternPreds []string
+var bodyExternPaths map[string]bool // fields on whose strings some rule applies an external function
+
+// the environment for a set of base strings: every external function and predicate on every string, and on the
+// projections of it (two levels)
+func externEnv(base []string) string {
+	seen := map[string]bool{}
+	var all []string
+	add := func(s string) {
+		if !seen[s] {
+			seen[s] = true
+			all = append(all, s)
+		}
+	}
+	for _, s := range base {
+		add(s)
+	}
+	for lvl := 0; lvl < 2; lvl++ {
+		for _, s := range append([]string{}, all...) {
+			for _, n := range bodyExternFns {
+				if f := externFnImpl[n]; f != nil {
+					if r, ok := safeFn(f, s); ok {
+						add(r)
+					}
+				}
+			}
+		}
+	}
+	h := func(s string) string {
+		if s == "" {
+			return "-"
+		}
+		return hexs([]byte(s))
+	}
+	var parts []string
+	for _, s := range all {
+		for i, n := range bodyExternFns {
+			f := externFnImpl[n]
+			if f == nil {
+				continue
+			}
+			if r, ok := safeFn(f, s); ok {
+				parts = append(parts, fmt.Sprintf("f%d:%s:S%s", i, h(s), h(r)))
+			} else {
+				parts = append(parts, fmt.Sprintf("f%d:%s:F", i, h(s)))
+			}
+		}
+		for i, n := range bodyExternPreds {
+			p := externPredImpl[n]
+			if p == nil {
+				continue
+			}
+			v := "0"
+			if safePred(p, s) {
+				v = "1"
+			}
+			parts = append(parts, fmt.Sprintf("p%d:%s:%s", i, h(s), v))
+		}
+	}
+	if len(parts) == 0 {
+		return "."
+	}
+	return strings.Join(parts, ",")
+}
+
+func safeFn(f func(string) (string, bool), s string) (r string, ok bool) {
+	defer func() {
+		if recover() != nil {
+			r, ok = "", false
+		}
+	}()
+	return f(s)
+}
+
+func safePred(p func(string) bool, s string) (b bool) {
+	defer func() {
+		if recover() != nil {
+			b = false
+		}
+	}()
+	return p(s)
 }
 
 // statuses written in each translated body (from the terms), to report which were never reached
@@ -57,7 +197,10 @@ func loadBodyFacts() (names []string, fields []bodyField, err error) {
 				Name string      `json:"name"`
 				Body interface{} `json:"body"`
 			} `json:"bodies"`
-			Fields map[string]string `json:"body_fields"`
+			Fields      map[string]string `json:"body_fields"`
+			ExternFns   []string          `json:"body_extern_fns"`
+			ExternPreds []string          `json:"body_extern_preds"`
+			ExternPaths []string          `json:"body_extern_paths"`
 		} `json:"tables"`
 	}
 	if err := json.Unmarshal(data, &f); err != nil {
@@ -85,6 +228,11 @@ func loadBodyFacts() (names []string, fields []bodyField, err error) {
 		for k := range st {
 			bodyStatuses[b.Name] = append(bodyStatuses[b.Name], k)
 		}
+	}
+	bodyExternFns, bodyExternPreds = f.Tables.ExternFns, f.Tables.ExternPreds
+	bodyExternPaths = map[string]bool{}
+	for _, p := range f.Tables.ExternPaths {
+		bodyExternPaths[p] = true
 	}
 	var keys []string
 	for k := range f.Tables.Fields {
@@ -136,6 +284,7 @@ func oidDots(v reflect.Value) string {
 
 func bodyView(c *x509.Certificate, fields []bodyField) (string, bool) {
 	var bools, ints, strs, lists, times []string
+	var baseStrings []string
 	for id, f := range fields {
 		v, proj, ok := pathValue(c, f.path)
 		if !ok {
@@ -163,6 +312,9 @@ func bodyView(c *x509.Certificate, fields []bodyField) (string, bool) {
 			times = append(times, fmt.Sprintf("%d=%d.%d", id, tm.Unix(), tm.Nanosecond()))
 		case "str":
 			s := v.String()
+			if bodyExternPaths[f.path] {
+				baseStrings = append(baseStrings, s)
+			}
 			h := "-"
 			if s != "" {
 				h = hexs([]byte(s))
@@ -184,6 +336,9 @@ func bodyView(c *x509.Certificate, fields []bodyField) (string, bool) {
 				}
 				switch f.kind {
 				case "lstr":
+					if bodyExternPaths[f.path] {
+						baseStrings = append(baseStrings, e.String())
+					}
 					if e.String() == "" {
 						elems = append(elems, "-")
 					} else {
@@ -220,7 +375,7 @@ func bodyView(c *x509.Certificate, fields []bodyField) (string, bool) {
 		}
 		return strings.Join(xs, sep)
 	}
-	return "bodies\t" + j(bools, ",") + "\t" + j(ints, ",") + "\t" + j(strs, ",") + "\t" + j(lists, ";") + "\t" + j(exts, ",") + "\t" + j(times, ","), true
+	return "bodies\t" + j(bools, ",") + "\t" + j(ints, ",") + "\t" + j(strs, ",") + "\t" + j(lists, ";") + "\t" + j(exts, ",") + "\t" + j(times, ",") + "\t" + externEnv(baseStrings), true
 }
 
 func runRule(reg lint.Registry, name string, c *x509.Certificate) (tok string) {
